@@ -262,6 +262,47 @@ def run(chk):
                            "spin:ordered-targets",
                            f"transform_to_spatial_orbitals({x0}, '{tstr}', "
                            f"'{tspin}')")
+    # tensors without known spin blocks: contracted indices that sit only on
+    # such tensors take both spins independently (several groups of them in
+    # one term), and a term made of such tensors only is not dropped
+    Xa = lambda u, l_: Amplitude("X", (u,), (l_,))      # noqa
+    Ya = lambda u, l_: Amplitude("Y", (u,), (l_,))      # noqa
+    Wq = lambda u, l_: AntiSymmetricTensor("Wq", (u,), (l_,))   # noqa
+    t2s = lambda u, l_: Amplitude("t2", (u,), (l_,))    # noqa
+    unknown = [
+        (t2s(a, i) * Xa(c, k) * Ya(c, k), "ia"),
+        (t2s(a, i) * Xa(c, k) * Ya(c, k) * Wq(l, l), "ia"),
+        (t2s(a, i) * Xa(c, k) * Ya(c, k) * Xa(d, l) * Ya(d, l), "ia"),
+        (V_(i, j, a, b) * Wq(k, l) * Wq(l, k), "ijab"),
+        (Xa(c, k) * Ya(c, k), ""),
+        (Wq(i, k) * Wq(k, j), "ij"),
+        (Xa(a, k) * Wq(k, i), "ia"),
+        (Xa(a, i) * Wq(k, k) + t2s(a, i), "ia"),
+    ]
+    for x0, tstr in unknown:
+        tsyms = get_symbols(tstr)
+        n_t = len(tsyms)
+        spins = ["".join(p_) for p_ in itertools.product("ab", repeat=n_t)]
+        if len(spins) > 2:
+            spins = r.sample(spins, 2 if quick else 4)
+        for tspin in spins:
+            expr = Expr(x0, real=True, target_idx=tsyms)
+            pre_copy = Expr(expr.sympy, **expr.assumptions)
+            what = (f"transform_to_spatial_orbitals({x0}, '{tstr}', "
+                    f"'{tspin}', restricted=False, expand_eri=False)")
+            res, exc = guarded(transform_to_spatial_orbitals, expr, tstr,
+                               tspin, False, False)
+            chk.count("transform_calls")
+            if exc:
+                if exc["type"] in ("NotImplementedError",):
+                    chk.count("refused")
+                    continue
+                chk.report_direct("spin:unknown-tensors:exception",
+                                  f"{what} raised {exc['type']}: "
+                                  f"{exc['msg']}", exc)
+                continue
+            spin_event(chk, pre_copy, res, tstr, tspin, False,
+                       "spin:unknown-tensors", what)
     # the spin blocks declared for registered intermediates
     avail = Intermediates().available
     for name in (["t2_1", "t1_2", "t2_2", "p0_2_oo", "p0_2_vv"] if quick else
